@@ -312,6 +312,7 @@ fn main() {
         }
         "secret-roundtrip" => { rt().block_on(secrets::run(cases, seed)); }
         "folder-ops" => { rt().block_on(folderops::run(cases, seed)); }
+        "plaintext-scan" => { rt().block_on(folderops::run_scan(cases, seed)); }
         "log-ops" => { rt().block_on(logops::run(cases, seed)); }
         "merge-patches" => { rt().block_on(mergeops::run(cases, seed)); }
         "search-index" => { search::run(cases, seed); }
